@@ -21,6 +21,11 @@ import (
 //   reasm readable          -> <0|1> <state>
 //   reasm fwdO <ssn> | fwdU <tsn> | fwdOM <mid> | fwdUM <mid> -> <readable> <state>
 //   reasm nbytes            -> <state>
+//   reasm abandon <id>                                                      (ground truth: the sender gave message <id> up)
+//   reasm drained           -> <state>   (honest mode: every fragment of every non-abandoned message was pushed and the
+//                                         application has read until `again`)
+//   reasm macro_inorder <n>  (replay only; not logged itself) n one-byte ordered DATA messages pushed in order, then drained
+//   reasm macro_lastfirst <n> (replay only) n such messages in flight, the last one arrives first, then the rest in order with reads
 // <state> = <getNumBytes> <white-box byte sum> <ordered entries> <unordered entries> <len orderedMIDMap>
 //           <unordered MID entries> <maps in sync 0|1>
 // Payload bytes are a function of (seed, index): vPayload. The hash is FNV-1a/64 in hex.
@@ -124,8 +129,40 @@ func (h *vReasm) exec(t *testing.T, op []string) {
 	case "new":
 		h.q = newReassemblyQueue(uint16(u32(2)), u32(3))
 		h.l.line(line, h.state())
-	case "msg":
+	case "msg", "abandon":
 		h.l.line(line, "")
+	case "drained":
+		h.l.line(line, h.state())
+	case "macro_inorder":
+		s := &vSender{si: h.q.si, mp: 1, nextTSN: 4294960000}
+		for i := 0; i < vAtoi(t, op[2]); i++ {
+			m := s.newMsg(1, false, uint32(i)*7919)
+			h.do(t, "reasm msg %d o %d %d %d %s", m.id, m.key, m.ppi, m.length, vHash(vPayload(m.seed, m.length)))
+			h.pushFrag(t, s, m, m.frags[0])
+		}
+		for {
+			h.do(t, "reasm read 70000")
+			if h.lastRErr != "ok" {
+				break
+			}
+		}
+		h.do(t, "reasm drained")
+	case "macro_lastfirst":
+		// n one-byte ordered DATA messages are in flight; the network delivers the LAST one first, then the others in order,
+		// the application reading as they come
+		s := &vSender{si: h.q.si, mp: 1, nextTSN: 4294960000}
+		n := vAtoi(t, op[2])
+		for i := 0; i < n; i++ {
+			m := s.newMsg(1, false, uint32(i)*7919)
+			h.do(t, "reasm msg %d o %d %d %d %s", m.id, m.key, m.ppi, m.length, vHash(vPayload(m.seed, m.length)))
+		}
+		h.pushFrag(t, s, s.msgs[n-1], s.msgs[n-1].frags[0])
+		for i := 0; i < n-1; i++ {
+			h.pushFrag(t, s, s.msgs[i], s.msgs[i].frags[0])
+			h.do(t, "reasm read 70000")
+		}
+		h.do(t, "reasm read 70000")
+		h.do(t, "reasm drained")
 	case "push":
 		if len(op) < 12 || len(op[8]) != 3 {
 			t.Fatalf("reasm: bad push %v", op)
@@ -472,6 +509,7 @@ func vReasmHonest(t *testing.T, h *vReasm, r *vrand, nops int) {
 				}
 				if r.chance(60) {
 					m.abandoned = true
+					h.do(t, "reasm abandon %d", m.id)
 					if m.unordered {
 						lastU = m
 					} else {
@@ -524,6 +562,9 @@ func vReasmHonest(t *testing.T, h *vReasm, r *vrand, nops int) {
 		if h.lastRErr != "ok" {
 			break
 		}
+	}
+	if !limitHit {
+		h.do(t, "reasm drained")
 	}
 	h.do(t, "reasm nbytes")
 }
